@@ -13,6 +13,19 @@ int pp;
 #define PP_T 1
 #define PP_F 2
 
+/* The effect clauses of the two operations that are also PROVED for the memory storages (units/C18/memstore.py lowers
+   QXmppAtmTrustMemoryStorage::addKeysForPostponedTrustDecisions and QXmppTrustMemoryStorage::setTrustLevel(owners, old, new) and
+   verifies them against exactly these clauses, with pp / tl read off the stored entries):
+   addKeysForPostponedTrustDecisions(enc, sender, list), list names (g_o, g_k) as trusted: has_t, as distrusted: has_f */
+#define ADDKEYS_UNTOUCHED(pp_new, pp_old, enc_, sender_, has_t_, has_f_) (((enc_) == g_e && (sender_) == g_s && ((has_t_) || (has_f_))) || (pp_new) == (pp_old))
+#define ADDKEYS_TRUSTED(pp_new, pp_old, enc_, sender_, has_t_, has_f_) (!((enc_) == g_e && (sender_) == g_s && (has_t_) && !(has_f_)) || (pp_new) == PP_T)
+#define ADDKEYS_DISTRUSTED(pp_new, pp_old, enc_, sender_, has_t_, has_f_) (!((enc_) == g_e && (sender_) == g_s && (has_f_) && !(has_t_)) || (pp_new) == PP_F)
+#define ADDKEYS_BOTH(pp_new, pp_old, enc_, sender_, has_t_, has_f_) (!((enc_) == g_e && (sender_) == g_s && (has_f_) && (has_t_)) || (pp_new) == PP_T || (pp_new) == PP_F)
+/* setTrustLevel(enc, owners, from, to), owners contains g_o: has_o.  A key that is not stored counts as Undecided for
+   trustLevel() but is not created by this operation, hence the precondition from != Undecided */
+#define STLO_EFFECT(tl_new, tl_old, enc_, has_o_, from_, to_) ((tl_new) == (((enc_) == g_e && (has_o_) && (tl_old) == (from_)) ? (to_) : (tl_old)))
+#define STLO_PRE(from_) ((from_) != QXmpp_TrustLevel__Undecided)
+
 struct { unsigned calls; qtask task; qstr enc; qstr owner; qkey key; } G_tlq;          /* trustLevel(enc, owner, key) */
 struct { unsigned calls; qtask task; qstr enc; qstr jid; int levels; } G_hk;             /* hasKey(enc, jid, levels) */
 struct { unsigned calls; qtask task; qstr enc; KeySet keys; int level; } G_stl;        /* setTrustLevel(enc, keys, level) */
@@ -48,8 +61,9 @@ __CPROVER_ensures(G_stl.calls == __CPROVER_old(G_stl.calls) + 1 && G_stl.enc == 
 ;
 /* QXmppTrustManager::setTrustLevel(encryption, owners, old, new): every key of these owners that has level `old` gets `new` */
 qtask TrustManager_setTrustLevel_owners(QXmppAtmManager *self, qstr encryption, const OwnerList *keyOwnerJids, int oldTrustLevel, int newTrustLevel)
+__CPROVER_requires(STLO_PRE(oldTrustLevel))
 __CPROVER_assigns(G_stlo, tl)
-__CPROVER_ensures(tl == ((encryption == g_e && keyOwnerJids->has_o && __CPROVER_old(tl) == oldTrustLevel) ? newTrustLevel : __CPROVER_old(tl)))
+__CPROVER_ensures(STLO_EFFECT(tl, __CPROVER_old(tl), encryption, keyOwnerJids->has_o, oldTrustLevel, newTrustLevel))
 __CPROVER_ensures(G_stlo.calls == __CPROVER_old(G_stlo.calls) + 1 && G_stlo.enc == encryption && G_stlo.from == oldTrustLevel && G_stlo.to == newTrustLevel && OL_EQ(G_stlo.owners, *keyOwnerJids) && __CPROVER_return_value == G_stlo.task)
 ;
 /* the same three operations called on the storage itself (QXmppTrustStorage::setTrustLevel / trustLevel); the answer of the
@@ -61,8 +75,9 @@ __CPROVER_ensures(tl == ((encryption == g_e && keyIds->has_pair) ? trustLevel : 
 __CPROVER_ensures(G_stl.calls == __CPROVER_old(G_stl.calls) + 1 && G_stl.enc == encryption && G_stl.level == trustLevel && KS_EQ(G_stl.keys, *keyIds) && __CPROVER_return_value == G_stl.task)
 ;
 qtask Storage_setTrustLevel_owners(QXmppAtmTrustStorage *self, qstr encryption, const OwnerList *keyOwnerJids, int oldTrustLevel, int newTrustLevel)
+__CPROVER_requires(STLO_PRE(oldTrustLevel))
 __CPROVER_assigns(G_stlo, tl)
-__CPROVER_ensures(tl == ((encryption == g_e && keyOwnerJids->has_o && __CPROVER_old(tl) == oldTrustLevel) ? newTrustLevel : __CPROVER_old(tl)))
+__CPROVER_ensures(STLO_EFFECT(tl, __CPROVER_old(tl), encryption, keyOwnerJids->has_o, oldTrustLevel, newTrustLevel))
 __CPROVER_ensures(G_stlo.calls == __CPROVER_old(G_stlo.calls) + 1 && G_stlo.enc == encryption && G_stlo.from == oldTrustLevel && G_stlo.to == newTrustLevel && OL_EQ(G_stlo.owners, *keyOwnerJids) && __CPROVER_return_value == G_stlo.task)
 ;
 qtask Storage_trustLevel(QXmppAtmTrustStorage *self, qstr encryption, qstr keyOwnerJid, qkey keyId)
@@ -85,10 +100,10 @@ __CPROVER_ensures(G_pol.calls == __CPROVER_old(G_pol.calls) + 1 && G_pol.enc == 
 qtask Storage_addKeysForPostponedTrustDecisions(QXmppAtmTrustStorage *self, qstr encryption, qkey senderKeyId, const KoList *keyOwners)
 __CPROVER_requires(keyOwners->tme == 0)
 __CPROVER_assigns(G_add, pp)
-__CPROVER_ensures(!(encryption == g_e && senderKeyId == g_s && (keyOwners->has_t || keyOwners->has_f)) ==> pp == __CPROVER_old(pp))
-__CPROVER_ensures((encryption == g_e && senderKeyId == g_s && keyOwners->has_t && !keyOwners->has_f) ==> pp == PP_T)
-__CPROVER_ensures((encryption == g_e && senderKeyId == g_s && keyOwners->has_f && !keyOwners->has_t) ==> pp == PP_F)
-__CPROVER_ensures((encryption == g_e && senderKeyId == g_s && keyOwners->has_f && keyOwners->has_t) ==> (pp == PP_T || pp == PP_F))
+__CPROVER_ensures(ADDKEYS_UNTOUCHED(pp, __CPROVER_old(pp), encryption, senderKeyId, keyOwners->has_t, keyOwners->has_f))
+__CPROVER_ensures(ADDKEYS_TRUSTED(pp, __CPROVER_old(pp), encryption, senderKeyId, keyOwners->has_t, keyOwners->has_f))
+__CPROVER_ensures(ADDKEYS_DISTRUSTED(pp, __CPROVER_old(pp), encryption, senderKeyId, keyOwners->has_t, keyOwners->has_f))
+__CPROVER_ensures(ADDKEYS_BOTH(pp, __CPROVER_old(pp), encryption, senderKeyId, keyOwners->has_t, keyOwners->has_f))
 __CPROVER_ensures(G_add.calls == __CPROVER_old(G_add.calls) + 1 && G_add.enc == encryption && G_add.sender == senderKeyId && __CPROVER_return_value == G_add.task)
 __CPROVER_ensures(G_add.list.tme == 0 && IFF(G_add.list.has_t, keyOwners->has_t) && IFF(G_add.list.has_f, keyOwners->has_f))
 ;
